@@ -282,10 +282,10 @@ class Evaluator:
             return self.const(e[1])
         if k == 'sym':
             n = e[1]
+            if n in self.sym:
+                return self.sym[n]           # bindings of the caller and function parameters take precedence over the file's replacement rules
             if n in rules:
                 return self.ev(rules[n], rules)
-            if n in self.sym:
-                return self.sym[n]
             if n in self.d.values:
                 return self.ev(self.d.values[n], rules)
             raise MmaError('free symbol %s has no value' % n)
